@@ -8,15 +8,15 @@ Import ListNotations.
 Local Open Scope nat_scope.
 
 (* friendlier forms of the primitive rules *)
-Lemma WB_start' (Q : marker -> pst -> Prop) own Lb b0 V s :
-  St own Lb b0 V s ->
-  (forall m s', St (m :: own) Lb b0 V s' -> m = nev s -> nev s' = S m ->
+Lemma WB_start' (Q : marker -> pst -> Prop) own Lb b0 V W s :
+  St [] own Lb b0 V W s ->
+  (forall m s', St [] (m :: own) Lb b0 V W s' -> m = nev s -> nev s' = S m ->
                 (forall i, Valid s i -> Valid s' i) -> Q m s') ->
   WB start Q s.
 Proof. intros HS H. eapply WB_start; [exact HS|]. intros s' H1 H2 H3. apply H; auto. Qed.
-Lemma WB_precede' cm (Q : marker -> pst -> Prop) own Lb b0 V s :
-  St own Lb b0 V s -> Valid s (fst cm) ->
-  (forall m s', St (m :: own) Lb b0 V s' -> m = nev s -> nev s' = S m -> fst cm < m ->
+Lemma WB_precede' cm (Q : marker -> pst -> Prop) own Lb b0 V W s :
+  St [] own Lb b0 V W s -> Valid s (fst cm) ->
+  (forall m s', St [m] own Lb b0 V W s' -> m = nev s -> nev s' = S m -> fst cm < m ->
                 (forall i, Valid s i -> Valid s' i) -> Q m s') ->
   WB (precede cm) Q s.
 Proof.
@@ -61,7 +61,7 @@ Definition ResOCmB (s : pst) (r : option (cmarker * bool)) (s' : pst) : Prop :=
 Definition ResCmB (s : pst) (r : cmarker * bool) (s' : pst) : Prop := ResCm s (fst r) s'.
 (* consumes the newest live marker *)
 Definition SpecC {A} (f : marker -> M A) (Res : pst -> A -> pst -> Prop) : Prop :=
-  forall s m L, LiveOK s -> NoDup (live s) -> live s = m :: L ->
+  forall s m L, LiveOK s -> NoDup (live s) -> live s = m :: L -> NT s m ->
   WB (f m) (fun r s' => FrameC m s s' /\ Res s r s') s.
 (* takes a completed marker *)
 Definition SpecL {A} (f : cmarker -> M A) (Res : cmarker -> pst -> A -> pst -> Prop) : Prop :=
@@ -86,7 +86,7 @@ Arguments gb_expr_none {R}. Arguments gb_expr_some {R}. Arguments gb_stmt {R}. A
 Arguments gb_non_array_type_spec {R}. Arguments gb_if_stmt {R}. Arguments gb_param_list {R}.
 
 (* ---------------- tactics ---------------- *)
-Ltac st_of s := match goal with H : St _ _ _ _ s |- _ => constr:(H) end.
+Ltac st_of s := match goal with H : St _ _ _ _ _ _ s |- _ => constr:(H) end.
 Ltac transport Hm s :=
   repeat match goal with Hv : Valid s _ |- _ => apply Hm in Hv end;
   match type of Hm with (forall i, Valid _ i -> Valid ?s' i) =>
@@ -96,14 +96,14 @@ Ltac transport Hm s :=
         by (let i := fresh in let H := fresh in intros i H; apply Hm; apply Hc; exact H);
       clear Hc end
   end.
-Ltac in_own := cbn [In]; auto 6.
+Ltac in_own := solve [ cbn [In]; auto 6 ].
 Ltac fix_own H := cbn [remove_nat] in H; rewrite ?Nat.eqb_refl in H.
 
 Ltac bpure :=
   repeat first
     [ apply pure_ret | apply pure_current | apply pure_nth_tok | apply pure_at | apply pure_nth_at
     | apply pure_at_ts | apply pure_eat | apply pure_bump | apply pure_bump_any | apply pure_error
-    | apply pure_expect | apply pure_push | apply pure_current_op | apply pure_get
+    | apply pure_expect | apply pure_current_op | apply pure_get
     | apply pure_bind; [|intro]
     | match goal with |- Pure (if ?b then _ else _) => destruct b end
     | match goal with |- Pure (when_ ?b _) => unfold when_; destruct b end
@@ -119,7 +119,7 @@ Ltac b_pure :=
     let r := fresh "r" in let s' := fresh "s" in let HA := fresh "HA" in
     intros r s' HA;
     let HS' := fresh "HS" in
-    pose proof (st_appends _ _ _ _ _ _ HS HA) as HS';
+    pose proof (st_appends _ _ _ _ _ _ _ _ HS HA) as HS';
     let Hn := fresh "Hn" in pose proof (appends_nev _ _ HA) as Hn;
     let Hm := fresh "Hm" in
     assert (Hm : forall i, Valid s i -> Valid s' i) by (intros ? ?; eapply appends_valid; eauto);
@@ -138,7 +138,7 @@ Ltac b_start :=
 Ltac b_complete :=
   match goal with |- WB (complete ?m _) _ ?s =>
     let HS := st_of s in
-    eapply WB_complete; [exact HS|in_own|];
+    first [ eapply WB_complete; [exact HS|in_own|] | eapply WB_complete_pre; [exact HS|] ];
     let s' := fresh "s" in let HS' := fresh "HS" in let Hv := fresh "Hv" in
     let Hn := fresh "Hn" in let Hm := fresh "Hm" in
     intros s' HS' Hv Hn Hm; fix_own HS'; transport Hm s; clear HS Hm
@@ -164,7 +164,7 @@ Ltac b_precede :=
 Ltac b_extend :=
   match goal with |- WB (extend_to _ _) _ ?s =>
     let HS := st_of s in
-    eapply WB_extend_to; [exact HS|in_own|eassumption|try lia|];
+    eapply WB_extend_to; [exact HS|in_own|eassumption|lia|];
     let s' := fresh "s" in let HS' := fresh "HS" in let Hv1 := fresh "Hv" in let Hv2 := fresh "Hv" in
     let Hn := fresh "Hn" in let Hm := fresh "Hm" in
     intros s' HS' Hv1 Hv2 Hn Hm; fix_own HS'; transport Hm s; clear HS Hm
@@ -174,11 +174,11 @@ Ltac b_callA H :=
   match goal with |- WB _ _ ?s =>
     let HS := st_of s in
     let HL := fresh "HL" in let HN := fresh "HN" in
-    destruct (st_liveok _ _ _ _ _ HS) as [HL HN];
+    destruct (st_liveok _ _ _ _ _ _ _ HS) as [HL HN];
     eapply WB_conseq; [eapply H; eassumption|];
     let r := fresh "r" in let s' := fresh "s" in let HF := fresh "HF" in let HR := fresh "HR" in
     intros r s' [HF HR];
-    let HS' := fresh "HS" in pose proof (st_frame _ _ _ _ _ _ HS HF) as HS';
+    let HS' := fresh "HS" in pose proof (st_frame _ _ _ _ _ _ _ _ HS HF) as HS';
     let Hn := fresh "Hn" in
     assert (nev s <= nev s') as Hn by (destruct HF as [_ [_ [_ [? _]]]]; assumption);
     let Hm := fresh "Hm" in
@@ -186,19 +186,18 @@ Ltac b_callA H :=
     transport Hm s; clear HS HL HN Hm HF; cbv beta in HR
   end.
 
-Lemma st_live_head m own Lb b0 V s : St (m :: own) Lb b0 V s -> live s = m :: (own ++ Lb).
-Proof. intros [_ [H _]]. exact H. Qed.
 (* a call to a function that consumes the newest live marker *)
 Ltac b_callC H :=
   match goal with |- WB _ _ ?s =>
     let HS := st_of s in
     let HL := fresh "HL" in let HN := fresh "HN" in
-    destruct (st_liveok _ _ _ _ _ HS) as [HL HN];
-    let HH := fresh "HH" in pose proof (st_live_head _ _ _ _ _ _ HS) as HH;
-    eapply WB_conseq; [eapply H; eassumption|]; clear HH;
+    destruct (st_liveok _ _ _ _ _ _ _ HS) as [HL HN];
+    let HH := fresh "HH" in pose proof (st_live_head _ _ _ _ _ _ _ HS) as HH;
+    let HT := fresh "HT" in pose proof (st_head_nt _ _ _ _ _ _ _ HS) as HT;
+    eapply WB_conseq; [eapply H; eassumption|]; clear HH HT;
     let r := fresh "r" in let s' := fresh "s" in let HF := fresh "HF" in let HR := fresh "HR" in
     intros r s' [HF HR];
-    let HS' := fresh "HS" in pose proof (st_framec _ _ _ _ _ _ _ HS HF) as HS';
+    let HS' := fresh "HS" in pose proof (st_framec _ _ _ _ _ _ _ _ HS HF) as HS';
     let Hm := fresh "Hm" in
     assert (forall i, Valid s i -> Valid s' i) as Hm by (destruct HF as [_ [_ [? _]]]; assumption);
     let Hb := fresh "Hb" in
@@ -212,11 +211,11 @@ Ltac b_callL H :=
   match goal with |- WB _ _ ?s =>
     let HS := st_of s in
     let HL := fresh "HL" in let HN := fresh "HN" in
-    destruct (st_liveok _ _ _ _ _ HS) as [HL HN];
+    destruct (st_liveok _ _ _ _ _ _ _ HS) as [HL HN];
     eapply WB_conseq; [eapply H; eassumption|];
     let r := fresh "r" in let s' := fresh "s" in let HF := fresh "HF" in let HR := fresh "HR" in
     intros r s' [HF HR];
-    let HS' := fresh "HS" in pose proof (st_frame _ _ _ _ _ _ HS HF) as HS';
+    let HS' := fresh "HS" in pose proof (st_frame _ _ _ _ _ _ _ _ HS HF) as HS';
     let Hn := fresh "Hn" in
     assert (nev s <= nev s') as Hn by (destruct HF as [_ [_ [_ [? _]]]]; assumption);
     let Hm := fresh "Hm" in
@@ -241,9 +240,9 @@ Ltac b_done :=
 Ltac b_loop :=
   match goal with |- WB (loop _ _) _ ?s =>
     let HS := st_of s in
-    match type of HS with St ?own ?Lb ?b0 ?V s =>
+    match type of HS with St ?pre ?own ?Lb ?b0 ?V ?W s =>
       apply WB_loop_inv with
-        (Iv := fun s1 => St own Lb b0 V s1 /\ (forall i, Valid s i -> Valid s1 i) /\ nev s <= nev s1);
+        (Iv := fun s1 => St pre own Lb b0 V W s1 /\ (forall i, Valid s i -> Valid s1 i) /\ nev s <= nev s1);
       [ split; [exact HS | split; [intros ? Hq; exact Hq | lia]]
       | let s1 := fresh "s" in let HS1 := fresh "HS" in let Hc := fresh "Hc" in let Hn := fresh "Hn" in
         intros s1 [HS1 [Hc Hn]]; clear HS; transport Hc s
@@ -256,10 +255,10 @@ Ltac b_loop :=
 Ltac b_loopS PA PB :=
   match goal with |- WB (loopS _ _ _) _ ?s =>
     let HS := st_of s in
-    match type of HS with St ?own ?Lb ?b0 ?V s =>
+    match type of HS with St ?pre ?own ?Lb ?b0 ?V ?W s =>
       apply WB_loopS_inv with
-        (Iv := fun a s1 => St own Lb b0 V s1 /\ (forall i, Valid s i -> Valid s1 i) /\ nev s <= nev s1 /\ PA a s1)
-        (J := fun b s1 => St own Lb b0 V s1 /\ (forall i, Valid s i -> Valid s1 i) /\ nev s <= nev s1 /\ PB b s1);
+        (Iv := fun a s1 => St pre own Lb b0 V W s1 /\ (forall i, Valid s i -> Valid s1 i) /\ nev s <= nev s1 /\ PA a s1)
+        (J := fun b s1 => St pre own Lb b0 V W s1 /\ (forall i, Valid s i -> Valid s1 i) /\ nev s <= nev s1 /\ PB b s1);
       [ split; [exact HS | split; [intros ? Hq; exact Hq | split; [lia|]]]
       | let a := fresh "a" in let s1 := fresh "s" in let HS1 := fresh "HS" in let Hc := fresh "Hc" in
         let Hn := fresh "Hn" in let HP := fresh "HP" in
@@ -274,9 +273,9 @@ Ltac b_loopS PA PB :=
 Ltac b_join :=
   match goal with |- WB (bind _ _) _ ?s =>
     let HS := st_of s in
-    match type of HS with St ?own ?Lb ?b0 ?V s =>
+    match type of HS with St ?pre ?own ?Lb ?b0 ?V ?W s =>
       apply WB_join with
-        (J := fun s1 => St own Lb b0 V s1 /\ (forall i, Valid s i -> Valid s1 i) /\ nev s <= nev s1);
+        (J := fun s1 => St pre own Lb b0 V W s1 /\ (forall i, Valid s i -> Valid s1 i) /\ nev s <= nev s1);
       [ let Hc := fresh "Hc" in assert (Hc : forall i, Valid s i -> Valid s i) by (intros ? Hq; exact Hq)
       | let a := fresh "a" in let s1 := fresh "s" in let HS1 := fresh "HS" in let Hc := fresh "Hc" in
         let Hn := fresh "Hn" in
@@ -338,5 +337,5 @@ Ltac b_enterL :=
 Ltac b_enterC :=
   let s := fresh "s" in let m := fresh "m" in let L := fresh "L" in
   let HL := fresh "HL" in let HN := fresh "HN" in let HE := fresh "HE" in
-  intros s m L HL HN HE; pose proof (st_enter_c m L s HL HN HE) as HS0; clear HL HN.
+  intros s m L HL HN HE HT; pose proof (st_enter_c m L s HL HN HE HT) as HS0; clear HL HN HT.
 
